@@ -84,6 +84,7 @@ fn run(line: &str) -> String {
         "serde.sig_de" => match bincode::deserialize::<Signature>(&hex(t[1])) { Ok(v) => hx(&v.to_bytes()), Err(_) => "ERR".into() },
         "serde.xpk_rt" => { let pk = x25519_dalek::PublicKey::from(a32(t[1])); let b = bincode::serialize(&pk).unwrap(); let q: x25519_dalek::PublicKey = bincode::deserialize(&b).unwrap(); format!("{} {}", hx(&b), hx(q.as_bytes())) }
         "sc.from_canonical" => { let r = Scalar::from_canonical_bytes(a32(t[1])); if bool::from(r.is_some()) { hx(r.unwrap().as_bytes()) } else { "NONE".into() } }
+        "sc.from_bits" => hx(sc_bits(t[1]).as_bytes()),
         "sc.reduce32" => hx(Scalar::from_bytes_mod_order(a32(t[1])).as_bytes()),
         "sc.reduce64" => hx(Scalar::from_bytes_mod_order_wide(&a64(t[1])).as_bytes()),
         "sc.add" => hx((Scalar::from_bytes_mod_order(a32(t[1])) + Scalar::from_bytes_mod_order(a32(t[2]))).as_bytes()),
